@@ -72,6 +72,10 @@ CLAIMED = {
             "bounded-exhaustive enumeration of texts (statement templates x literal/expression atoms, one and two statements) x every offset and line, compared with CPython's tokenize and ast",
             "Texts from 18 statement templates x 40 atoms (all string prefixes and quote styles, escapes, f-strings with nesting, number spellings, unicode identifiers, keywords glued to literals, continuations, bracketed line breaks, semicolons, tabs) are fed to simplify.ignored_regions/real_code, SourceLinesAdapter, logical_lines and Worder; every offset / line / identifier character is compared with the tokenizer's tokens, NEWLINE-delimited logical lines and the ast attribute chains.",
             "tokenize/ast of CPython 3.12 are the reference; identifier tokens inside f-string fields not used for Worder checks", "3/C14"),
+    "C08": ("exploration",
+            "bounded-exhaustive enumeration of grammar constructs composed to depth 2 x layout deviations, with CPython's ast positions and re-parsing as oracles",
+            "83 expression atoms x 10 expression contexts, 28 simple statements x every atom, 28 compound statements x every simple statement as body, each with 0 or 1 of 9 layout deviations, are annotated with get_patched_ast; checked per module: annotation succeeds, write_ast reproduces the text, every positioned node has a region, regions nest, region text equals the interpreter's segment up to redundant parentheses, region re-parses to the same node.",
+            "CPython 3.12 positions are the reference; regions may include redundant parentheses/blanks and a definition's decorators", "3/C08"),
 }
 
 PENDING_REASON = "check not built yet in this session (see DESIGN.md section 8 build order); nothing is claimed for it"
